@@ -69,6 +69,28 @@ def run(ctx):
                  "%d position writes/removes over %d success paths, expected trader %s; %s" % (n_w, len(st.ok_paths()), who, bad or "all keyed on the acting pair"))
         ctx.note_paths(len(st.ok_paths()))
 
+    # ---------------------------------------------------------------- R10.6
+    # the key hashes vamm || trader: without framing, (vamm, trader) pairs whose concatenations coincide share a slot
+    # ("contract4" + "0bob" = "contract40" + "bob"), so one trader's transaction rewrites another trader's position
+    ctx.rule("R10.6", "the position key frames its variable-length inputs (length prefix or separator): distinct (vamm, trader) pairs cannot alias", 3)
+    keyfns = {}
+    for (st, root, depth) in sorted(steps.values(), key=lambda x: (x[1], x[2], x[0].label)):
+        for q in st.ok_paths():
+            for wr in st.writes(q):
+                if wr["item"] == POS and wr["key"] is not None:
+                    keyfns.setdefault("%s:%s" % (wr["kind"], "position"), set()).add(hash_framing(ix, wr["key"]))
+            for e in q.events:
+                lk = load_key(ix, e.result) if e.result is not None else None
+                if lk is not None:
+                    keyfns.setdefault("read:position", set()).add(hash_framing(ix, lk))
+    for kind in ("write:position", "remove:position", "read:position"):
+        fr = keyfns.get(kind)
+        if not fr:
+            ctx.lost("R10.6", kind)
+            continue
+        ctx.inst("R10.6", "key-framing:%s" % kind, "none" not in fr, "contracts/margined_engine/src/state.rs",
+                 "hash input framing at every %s: %s" % (kind, sorted(fr)))
+
     # ---------------------------------------------------------------- R10.2
     for (st, root, depth) in sorted(steps.values(), key=lambda x: (x[1], x[2], x[0].label)):
         bad = None
